@@ -9,7 +9,7 @@ LEVEL_NOTE = ("trusted: Lean 4.33 kernel with propext/Classical.choice/Quot.soun
               "the Python correspondence harness and the compiled driver; execnet, pytest core and CPython containers are modelled, not verified")
 
 CLAIMS = {
-    "C01": ("Lean theorems: for load and worksteal the controller's ledger (pool + books + completed + crashed = all indices + re-queued, "
+    "C01": ("Lean theorems: WHOLE SYSTEM, ALL SIX MODES: nothing is lost, duplicated or reordered between the controller and a live worker started with the session - received blocks ++ inbox payloads = exactly the payloads the log addressed to it (C01_sys_nothing_lost_to_a_live_worker); for load and worksteal the controller's ledger (pool + books + completed + crashed = all indices + re-queued, "
             "as multisets) is invariant along every sequence of scheduler calls, hence exactly-once and 'not finished before all are completed'; "
             "whole system (load, runs without worker loss): in every reachable state of the composed transition system (controller, receiver threads, workers' two threads, channels; any interleaving) "
             "the indices of the agreed collection are - each exactly once - in the pool or in one worker's account (started by its main thread, announced, queued, on their way), hence no test is started twice or on two "
